@@ -115,7 +115,7 @@ type HarnessRun struct {
 	notes                                         map[string]int
 	engineErr                                     string
 	wall                                          time.Duration
-	sat, unsat, unknown, solverErrs               int
+	sat, unsat, unknown, solverErrs, qhits        int
 	solverTime                                    time.Duration
 	truncated                                     bool
 }
@@ -132,16 +132,16 @@ type Worker struct {
 	ctx        *TermCtx
 	sol        *Solver
 	constCache map[*ssa.Const]Val
-	prevDec    []int64
-	prevAt     []int
-	prevValid  bool
+	qcache     map[string]qcacheEntry
+	qhits      int
+	fnInfos    map[*ssa.Function]*fnInfo
 	sincePaths int
 }
 
 func (w *Worker) reset() {
 	w.ctx = NewTermCtx()
 	w.sol.ResetAll()
-	w.prevValid = false
+	w.qcache = map[string]qcacheEntry{}
 	w.sincePaths = 0
 }
 
@@ -154,23 +154,7 @@ func (w *Worker) runPath(h *HarnessRun, prefix []int64) (alts [][]int64) {
 	w.sincePaths++
 	m := &Machine{eng: e, w: w, ctx: w.ctx, sol: w.sol, h: h, prefix: prefix,
 		pcSet: map[*Term]bool{}, globals: map[*ssa.Global]*Val{}, inited: map[*ssa.Package]bool{}, funcs: map[string]bool{}}
-	// align the solver's scopes with the part of the prefix shared with the
-	// previous path run on this worker
-	skip := 0
-	if w.prevValid {
-		l := 0
-		for l < len(prefix) && l < len(w.prevDec) && prefix[l] == w.prevDec[l] {
-			l++
-		}
-		if l < len(w.prevDec) {
-			skip = w.prevAt[l]
-		}
-	}
-	if skip > w.sol.level {
-		skip = w.sol.level
-	}
-	w.sol.PopTo(skip)
-	m.skip = skip
+	m.uf = map[*Term]*Term{}
 	outcome := "complete"
 	ok := true
 	func() {
@@ -206,10 +190,29 @@ func (w *Worker) runPath(h *HarnessRun, prefix []int64) (alts [][]int64) {
 		m.initPackage(e.pkg)
 		m.call(h.fn, nil)
 	}()
-	w.prevDec, w.prevAt, w.prevValid = m.decisions, m.assumesAt, ok && !strings.HasPrefix(outcome, "unknown")
-	if !w.prevValid {
-		w.sol.PopTo(0)
+	if w.ctx.checkSimp && len(w.ctx.pending) > 0 {
+		// validate the simplifier: naive != simplified must be unsat (context-free)
+		for _, p := range w.ctx.pending {
+			var ne *Term
+			if p[0].w == 0 {
+				ne = w.ctx.Not(w.ctx.intern(&Term{op: opEq, args: []*Term{p[0], p[1]}, name: "raw"}))
+			} else {
+				ne = w.ctx.Not(w.ctx.intern(&Term{op: opEq, args: []*Term{p[0], p[1]}, name: "raw"}))
+			}
+			if r := w.sol.Check(ne); r != "unsat" {
+				h.mu.Lock()
+				if h.engineErr == "" {
+					h.engineErr = "engine: SIMPLIFIER UNSOUND (" + r + "): " + p[0].String() + "  vs  " + p[1].String()
+				}
+				h.mu.Unlock()
+			}
+			h.mu.Lock()
+			h.notes["simplifier rewrites validated"]++
+			h.mu.Unlock()
+		}
+		w.ctx.pending = nil
 	}
+	_ = ok
 
 	h.mu.Lock()
 	defer h.mu.Unlock()
@@ -254,8 +257,8 @@ func (w *Worker) runPath(h *HarnessRun, prefix []int64) (alts [][]int64) {
 		wantSample := len(h.samples) < 6
 		wantX := len(h.xcheck) < e.xcheckPerHarness()
 		if needCover || wantSample || wantX {
-			if w.sol.Check() == "sat" {
-				vec := m.vector(true)
+			if md := m.fullModel(); md != nil {
+				vec := m.vector(md)
 				for _, c := range m.covers {
 					if _, ok := h.coverVec[c]; !ok {
 						h.coverVec[c] = vec
@@ -291,7 +294,7 @@ func (e *Engine) explore(h *HarnessRun) {
 	var wg sync.WaitGroup
 	workers := make([]*Worker, e.workers)
 	for i := range workers {
-		workers[i] = &Worker{id: i, eng: e, ctx: NewTermCtx(), sol: NewSolver(e.solver, int(e.seed)), constCache: map[*ssa.Const]Val{}}
+		workers[i] = &Worker{id: i, eng: e, ctx: NewTermCtx(), sol: NewSolver(e.solver, int(e.seed)), constCache: map[*ssa.Const]Val{}, qcache: map[string]qcacheEntry{}, fnInfos: map[*ssa.Function]*fnInfo{}}
 	}
 	for _, w := range workers {
 		wg.Add(1)
@@ -355,13 +358,36 @@ func (e *Engine) explore(h *HarnessRun) {
 			}
 		}(w)
 	}
+	doneCh := make(chan struct{})
+	if os.Getenv("VERIF_PROGRESS") != "" {
+		go func() {
+			tk := time.NewTicker(10 * time.Second)
+			defer tk.Stop()
+			for {
+				select {
+				case <-doneCh:
+					return
+				case <-tk.C:
+					h.mu.Lock()
+					p, v := h.paths, len(h.viols)
+					h.mu.Unlock()
+					mu.Lock()
+					q := len(queue)
+					mu.Unlock()
+					fmt.Fprintf(os.Stderr, "  .. %s: paths=%d viols=%d sharedqueue=%d wall=%s\n", h.name, p, v, q, fmtDur(time.Since(t0)))
+				}
+			}
+		}()
+	}
 	wg.Wait()
+	close(doneCh)
 	for _, w := range workers {
 		h.sat += w.sol.nSat
 		h.unsat += w.sol.nUnsat
 		h.unknown += w.sol.nUnknown
 		h.solverErrs += w.sol.nErr
 		h.solverTime += w.sol.dur
+		h.qhits += w.qhits
 		w.sol.Close()
 	}
 	h.wall = time.Since(t0)
